@@ -291,7 +291,7 @@ impl Check for C01 {
                 Verdict::Skip(_) | Verdict::Inconclusive(_) => st.count("scale:not-judged"),
                 Verdict::Mismatch { sig, detail } => {
                     // at the documented limits of the implementation a syntax error is admissible
-                    let limit_error = matches!(d.obs.as_ref().map(|o| &o.outcome), Some(Outcome::Error(crate::val::ErrKind::Syntax, _)));
+                    let limit_error = matches!(d.obs.as_ref().map(|o| &o.outcome), Some(Outcome::Error(crate::val::ErrKind::Syntax, _))) || sig == "parser-rejects:Syntax";
                     if crate::scale::may_hit_limit(&name) && limit_error {
                         st.count("scale:rejected-at-a-documented-limit");
                         st.set_insert("scale-programs-judged", &name);
